@@ -119,8 +119,14 @@ def oracle(ctx, budget_s=60, cases=None, ccases=None):
                     exp_row[n:] = (case['E'][i, b] * w)[:case['S'] - n]
                 if not np.allclose(out[i, b], exp_row, rtol=1e-12, atol=0) or \
                         np.any((out[i, b] != 0) != (exp_row != 0)):
-                    ctx.violation('receiver-wrap:_collect_receiver_energy',
-                                  'receiver kernel: patch %d delayed by %d of %d bins shows energy where the truncating shift has none' % (i, n, case['S']),
+                    rolled = np.roll(case['E'][i, b] * w, n)
+                    if np.allclose(out[i, b], rolled, rtol=1e-12, atol=0):
+                        sig = 'receiver-wrap:_collect_receiver_energy'
+                        what = 'receiver kernel: patch %d delayed by %d of %d bins shows energy where the truncating shift has none (wrapped around)' % (i, n, case['S'])
+                    else:
+                        sig = 'receiver-kernel-wrong'
+                        what = 'receiver kernel: patch %d band %d is neither the delayed nor the wrapped attenuated histogram' % (i, b)
+                    ctx.violation(sig, what,
                                   {'P': case['P'], 'B': case['B'], 'S': case['S'], 'c': c, 'dt': dt,
                                    'dist': case['dist'], 'att': case['att'], 'E': case['E']},
                                   {'row': out[i, b]}, {'row': exp_row})
